@@ -117,8 +117,13 @@ fn record_all(scs: Vec<Scenario>, base: &std::path::Path) -> Vec<Work> {
     out
 }
 
+/// Lowest publication index whose record has this content (records may repeat).
 fn idx_of(published: &[(i64, Rec)], r: &Rec) -> Option<i64> {
-    published.iter().find(|(_, p)| p == r).map(|(k, _)| *k)
+    published.iter().filter(|(_, p)| p == r).map(|(k, _)| *k).min()
+}
+/// Highest publication index whose record has this content.
+fn idx_of_max(published: &[(i64, Rec)], r: &Rec) -> Option<i64> {
+    published.iter().filter(|(_, p)| p == r).map(|(k, _)| *k).max()
 }
 
 fn words(r: &Rec) -> Vec<i64> {
@@ -256,7 +261,10 @@ fn judge(prop: Prop, w: &Work, cfg: &ExploreCfg, tr: &Transition, agg: &mut Agg)
         }
     }
     if matches!(prop, Prop::C03 | Prop::C04) {
-        if let (CallResult::Ok, Some(Some(after))) = (&tr.result, ret_idx) {
+        if let (CallResult::Ok, Some(Some(_))) = (&tr.result, ret_idx) {
+            // with repeated record contents: the newest publication the result can stand for must not be
+            // older than the oldest one the previous result can stand for
+            let after = tr.returned.as_ref().and_then(|r| idx_of_max(&published, r)).unwrap_or(-1);
             if let Some(before) = idx_of(&published, &tr.before.rec) {
                 if after < before {
                     agg.add(format!("{pfx}:goes-back:{m}"), devs, format!("a call returned publication {after} after an earlier call had returned publication {before}"), replay_doc(&w.sc, cfg, tr));
@@ -269,8 +277,9 @@ fn judge(prop: Prop, w: &Work, cfg: &ExploreCfg, tr: &Transition, agg: &mut Agg)
             if let Some(q) = w.trace.idle_point_explaining(&tr.stats.reads, cfg.end) {
                 let latest = w.trace.latest_completed_at(q);
                 let which = if w.sc.incs.len() > 1 && prop == Prop::C04 { "stale-after-restart" } else { "stale-while-idle" };
+                let latest_rec = published.iter().find(|(k, _)| *k == latest).map(|(_, r)| *r);
                 match (&tr.result, ret_idx) {
-                    (CallResult::Ok, Some(Some(after))) if after == latest => {}
+                    (CallResult::Ok, Some(Some(after))) if after == latest || tr.returned == latest_rec => {}
                     (CallResult::Ok, Some(Some(after))) => agg.add(format!("{pfx}:{which}"), devs, format!("no update in flight during the call (every load saw the state at writer position {q}), the latest completed publication there is {latest}, the call returned {after}"), replay_doc(&w.sc, cfg, tr)),
                     (CallResult::Ok, _) => {}
                     (r, _) => agg.add(format!("{pfx}:error-while-idle"), devs, format!("no update in flight during the call (writer position {q}), yet it returned {r:?}"), replay_doc(&w.sc, cfg, tr)),
@@ -581,6 +590,14 @@ fn run_reader_prop(ctx: &Ctx, prop: Prop, lit: (usize, u64)) -> i32 {
             let fam1: Vec<Scenario> = single_incarnation(tier, 2, &[1, 2]).into_iter().map(|mut s| { s.family = 1; s }).collect();
             plans.push(Plan { works: record_all(fam1.clone(), &base), mode: Mode::Sc, dev_bound: unb, stop_points: false, full_spin: false, label: "SC, K<=2 updates that change the status word only, all interleavings" });
             plans.push(Plan { works: record_all(fam1, &base), mode: Mode::Ra, dev_bound: tier.pick(3, 5), stop_points: false, full_spin: false, label: "RA, K<=2 updates that change the status word only, bounded stale reads" });
+            for (fam, what_sc, what_ra) in [
+                (2u8, "SC, K<=3 updates alternating a real record with the all-zero placeholder, all interleavings", "RA, same records, bounded stale reads"),
+                (3u8, "SC, K<=3 updates republishing an identical record, all interleavings", "RA, same records, bounded stale reads"),
+            ] {
+                let scs: Vec<Scenario> = single_incarnation(Tier::Quick, 2, &[2, 3]).into_iter().map(|mut s| { s.family = fam; s }).collect();
+                plans.push(Plan { works: record_all(scs.clone(), &base), mode: Mode::Sc, dev_bound: unb, stop_points: false, full_spin: false, label: what_sc });
+                plans.push(Plan { works: record_all(scs, &base), mode: Mode::Ra, dev_bound: tier.pick(2, 4), stop_points: false, full_spin: false, label: what_ra });
+            }
             if prop == Prop::C02 {
                 plans.push(Plan { works: record_all(single_incarnation(tier, 2, &[1, 2]), &base), mode: Mode::Ra, dev_bound: tier.pick(2, 4), stop_points: true, full_spin: true, label: "RA, writer stops for ever at every point (calls that exhaust their retries are run in full), bounded stale reads" });
             }
@@ -601,6 +618,8 @@ fn run_reader_prop(ctx: &Ctx, prop: Prop, lit: (usize, u64)) -> i32 {
         Prop::C18 => {
             plans.push(Plan { works: record_all(single_incarnation(tier, 2, &[1, 2]), &base), mode: Mode::Ra, dev_bound: tier.pick(2, 4), stop_points: true, full_spin: true, label: "RA, writer stops for ever at every point, bounded stale reads" });
             plans.push(Plan { works: record_all(single_incarnation(tier, 2, &[1, 2]), &base), mode: Mode::Sc, dev_bound: unb, stop_points: true, full_spin: true, label: "SC, writer stops for ever at every point, all interleavings" });
+            let rep: Vec<Scenario> = single_incarnation(Tier::Quick, 2, tier.pick(&[2][..], &[2, 3][..])).into_iter().filter(|s| tier == Tier::Thorough || matches!(s.init, Init::Absent | Init::Valid(2))).map(|mut s| { s.family = 3; s }).collect();
+            plans.push(Plan { works: record_all(rep, &base), mode: Mode::Sc, dev_bound: unb, stop_points: true, full_spin: true, label: "SC, an identical record republished, writer stops for ever at every point" });
         }
     }
     let mut agg = Agg::new();
@@ -928,9 +947,12 @@ fn run_c11(ctx: &Ctx) -> i32 {
             let g = gens[i] as u16;
             let dir = acc.3.clone();
             let mut succ = vec![];
-            let mut scs = vec![Scenario { init: Init::Valid(g), incs: vec![(1, None)], chunks, family: 0 }];
+            // three consecutive updates by one writer instance (state a writer carries from one update to the
+            // next must not matter), from every start value; and a crash at every point of an update followed
+            // by a restart and three more updates
+            let mut scs = vec![Scenario { init: Init::Valid(g), incs: vec![(3, None)], chunks, family: 0 }];
             for c in 1..n_ev {
-                scs.push(Scenario { init: Init::Valid(g), incs: vec![(1, Some(c)), (1, None)], chunks, family: 0 });
+                scs.push(Scenario { init: Init::Valid(g), incs: vec![(1, Some(c)), (3, None)], chunks, family: 0 });
             }
             for sc in scs {
                 match record_trace(&sc, &dir) {
